@@ -426,6 +426,103 @@ Definition parse_list_s (sep ty : Z) (e : bool) (x : list Z) : list Z * nat * bo
   if negb b || head_is seq_close n then (els, (length x - length (if b then tl n else n))%nat, fault)
   else (els, O, fault).
 
+(* ---------- stream-parsed types: the fall back template  xconvert(const char*, T&, const char**, double)  ----------
+   Every T without a typed overload is parsed through detail::input_stream<char> (a std::istream over the C string, flags skipws|dec,
+   classic locale):  if (str >> out) { err = str.eof() ? x + xLen : x + str.tellg(); }  return err != x;   errno is not touched.
+   Type codes 30 signed char, 31 unsigned char, 32 short, 33 unsigned short (harness op 9).  operator>> is the C++ library: MODELLED
+   (ISO C++ [istream.extractors], [facet.num.get.virtuals]) and validated by the correspondence run, like strtoll above:
+   - (signed|unsigned) char: the sentry skips white space; at the end of the string failbit|eofbit; otherwise exactly ONE CHARACTER
+     is extracted (its code is the value - NOT a number: "7" gives 55) and eofbit stays clear even when it was the last one, so the end
+     position is tellg() = input_from_string::seekoff(0, cur) -> seekpos(gptr - eback), which must accept offset == size.
+   - short / unsigned short: white space, optional sign, DECIMAL digit run (basefield dec: "010" is 10, "0x10" stops behind the 0, no
+     keywords); no digit -> failbit; short: value outside SHRT_MIN..SHRT_MAX -> failbit; unsigned short: digit run above USHRT_MAX ->
+     failbit, a '-' negates modulo 2^16 ("-1" is 65535); the end position is behind the digit run (eof or tellg). *)
+Definition stream_ty (ty : Z) : bool := (30 <=? ty) && (ty <=? 33).
+Definition is_dec_digit (c : Z) : bool := (48 <=? c) && (c <=? 57).
+
+Definition parse_stream_char (sgn : bool) (e : bool) (x : list Z) : pres :=
+  match drop_while is_space x with
+  | [] => pfail e
+  | c :: _ => mkp true (if sgn && (c >? c_SCHAR_MAX) then c - (c_UCHAR_MAX + 1) else c) (S (length (take_while is_space x))) e
+  end.
+
+Definition parse_stream_num (sgn : bool) (lo hi : Z) (e : bool) (x : list Z) : pres :=
+  let sp := sign_split (drop_while is_space x) in
+  let ds := take_while is_dec_digit (snd sp) in
+  match ds with
+  | [] => pfail e
+  | _ =>
+      let m := value_base 10 ds in
+      let neg := match fst sp with c :: _ => c =? 45 | [] => false end in
+      let len := (length (take_while is_space x) + length (fst sp) + length ds)%nat in
+      if sgn then
+        let v := if neg then - m else m in
+        if (v <? lo) || (v >? hi) then pfail e else mkp true v len e
+      else if m >? hi then pfail e
+      else mkp true (if neg then (hi + 1 - m) mod (hi + 1) else m) len e
+  end.
+
+Definition parse_stream (ty : Z) (e : bool) (x : list Z) : pres :=
+  if ty =? 30 then parse_stream_char true e x
+  else if ty =? 31 then parse_stream_char false e x
+  else if ty =? 32 then parse_stream_num true c_SHRT_MIN c_SHRT_MAX e x
+  else parse_stream_num false 0 c_USHRT_MAX e x.
+
+(* element parser of op 9: a stream-parsed type or one of the typed front ends *)
+Definition parse_any (ty : Z) (e : bool) (x : list Z) : pres :=
+  if stream_ty ty then parse_stream ty e x else parse_scalar ty e x.
+
+(* xconvert(const char*, std::pair<T,U>&, ...) and convert_seq<T>(x, maxLen, out, sep, errPos) once more, over arbitrary element
+   parsers (the templates are the same code for every T; parse_pair / seq_loop above are these with parse_scalar:
+   Properties_C16.v, c16_pair_template_instance / c16_seq_template_instance) *)
+Definition parse_pair_g (pa pb : bool -> list Z -> pres) (ia ib : Z) (e : bool) (x : list Z) : Z * Z * Z * nat :=
+  let ps := head_is pair_open x in
+  let n0 := if ps then tl x else x in
+  let ra := pa e n0 in
+  let n1 := skipn (p_len ra) n0 in
+  let fa := if p_ok ra then p_val ra else ia in
+  let second := match n1 with
+                | c :: ((_ :: _) as r) =>
+                    if p_ok ra && (c =? def_sep) then Some (pb (p_err ra) r, r) else None
+                | _ => None
+                end in
+  let '(tokU, fb, n2) := match second with
+                         | Some (rb, r) => (p_ok rb, (if p_ok rb then p_val rb else ib), skipn (p_len rb) r)
+                         | None => (false, ib, n1)
+                         end in
+  if negb ps || head_is pair_close n2 then
+    let n3 := if ps then tl n2 else n2 in
+    let at_end := match n3 with [] => true | _ => false end in
+    if tokU then (2, fa, fb, (length x - length n3)%nat)
+    else if p_ok ra && at_end then (1, fa, ib, (length x - length n3)%nat)
+    else (0, ia, ib, O)
+  else (0, ia, ib, O).
+
+(* while (t != maxLen) { if (!xconvert(n, temp, &n, sep)) break; *out++ = temp; ++t; if (!*n || *n != sep || !n[1]) break; n = n+1; } *)
+Fixpoint seq_loop_g (p : bool -> list Z -> pres) (sep : Z) (fuel : nat) (maxlen : nat) (e : bool) (n : list Z) (acc : list Z)
+  : list Z * list Z * bool :=
+  match fuel with
+  | O => (acc, n, true)
+  | S f =>
+      if (length acc =? maxlen)%nat then (acc, n, false) else
+      let r := p e n in
+      if negb (p_ok r) then (acc, n, false)
+      else
+        let n' := skipn (p_len r) n in
+        let acc' := acc ++ [p_val r] in
+        match n' with
+        | c :: ((_ :: _) as t) => if c =? sep then seq_loop_g p sep f maxlen (p_err r) t acc' else (acc', n', false)
+        | _ => (acc', n', false)
+        end
+  end.
+(* convert_seq: (elements, errPos - x, fuel fault); xconvert(T(&)[sz]) is maxlen = sz, xconvert(vector<T>&) is maxlen = max_size *)
+Definition parse_seq_g (p : bool -> list Z -> pres) (maxlen : nat) (e : bool) (x : list Z) : list Z * nat * bool :=
+  let b := head_is seq_open x in
+  let n0 := if b then tl x else x in
+  let '(els, n, fault) := seq_loop_g p def_sep (S (S (length x))) maxlen e n0 [] in
+  if negb b || head_is seq_close n then (els, (length x - length (if b then tl n else n))%nat, fault)
+  else (els, O, fault).
+
 (* ---------- value encoding of the case protocol ---------- *)
 Definition wrap_s (bits : Z) (v : Z) : Z := (v + 2 ^ (bits - 1)) mod 2 ^ bits - 2 ^ (bits - 1).
 Definition norm (ty : Z) (v : Z) : Z :=                 (* static_cast<T>(long long) *)
@@ -571,6 +668,38 @@ Definition obs_append (r : list Z) : list Z :=
   | _ => unsupported
   end.
 
+(* op 9: the stream-parsed types (harness/h_c16.cpp):
+   9 0 ty e len bytes          scalar: xconvert + string_cast                                -> tok val end errno cast_ok cast_val
+   9 1 ta tb e len bytes       pair<A,B>, A / B in {30..33, 1 char, 2 int}, one of them 30..33 -> sum first second end cast_ok
+   9 2 ty m e len bytes        m = 0: vector<T> (the harness first runs convert_seq with maxLen = |s| + 2: a parser that makes
+                               no progress is reported, not looped on); m = 1..3: the array T[m]  -> t end elems.. cast_ok
+   9 4                         <climits> of the narrow types *)
+Definition stream_comp (ty : Z) : bool := stream_ty ty || (ty =? 1) || (ty =? 2).
+Definition obs_stream_scalar (ty : Z) (e : bool) (x : list Z) : list Z :=
+  if negb (stream_ty ty) then unsupported else
+  let r := parse_stream ty e x in
+  let whole := p_ok r && (p_len r =? length x)%nat in
+  [b2z (p_ok r); (if p_ok r then p_val r else 0); Z.of_nat (p_len r); b2z (p_err r); b2z whole; (if whole then p_val r else 0)].
+Definition obs_stream_pair (ta tb : Z) (e : bool) (x : list Z) : list Z :=
+  if negb (stream_comp ta && stream_comp tb && (stream_ty ta || stream_ty tb)) then unsupported else
+  let '(sum, a, b, k) := parse_pair_g (parse_any ta) (parse_any tb) 0 0 e x in
+  [sum; (if 1 <=? sum then to_ll a else 0); (if 2 <=? sum then to_ll b else 0); Z.of_nat k;
+   b2z (negb (sum =? 0) && (k =? length x)%nat)].
+Definition obs_stream_seq (ty m : Z) (e : bool) (x : list Z) : list Z :=
+  if negb (stream_ty ty && (0 <=? m) && (m <=? 3)) then unsupported else
+  let maxlen := if m =? 0 then S (S (length x)) else Z.to_nat m in
+  let '(els, k, fault) := parse_seq_g (parse_any ty) maxlen e x in
+  (if fault then [-997] else []) ++
+  zlen els :: Z.of_nat k :: els ++ [b2z (negb (length els =? 0)%nat && (k =? length x)%nat)].
+Definition obs_stream (r : list Z) : list Z :=
+  match r with
+  | 0 :: ty :: e :: len :: t => obs_stream_scalar ty (negb (e =? 0)) (bytes len t)
+  | 1 :: ta :: tb :: e :: len :: t => obs_stream_pair ta tb (negb (e =? 0)) (bytes len t)
+  | 2 :: ty :: m :: e :: len :: t => obs_stream_seq ty m (negb (e =? 0)) (bytes len t)
+  | 4 :: _ => [c_SCHAR_MIN; c_SCHAR_MAX; c_UCHAR_MAX; c_SHRT_MIN; c_SHRT_MAX; c_USHRT_MAX]
+  | _ => unsupported
+  end.
+
 (* op 6: what the translator assumed about the platform and the enum classes *)
 Definition obs_meta (k : Z) : list Z :=
   if k =? 0 then map to_ll [c_INT_MIN; c_INT_MAX; c_UINT_MAX; c_LONG_MIN; c_LONG_MAX; c_ULONG_MAX; c_LLONG_MIN; c_LLONG_MAX; c_ULLONG_MAX]
@@ -597,5 +726,6 @@ Definition run_case (c : list Z) : list Z :=
   | 6 :: k :: _ => obs_meta k
   | 7 :: ty :: lo :: hi :: _ => obs_sweep ty lo hi
   | 8 :: r => obs_append r
+  | 9 :: r => obs_stream r
   | _ => unsupported
   end.
